@@ -422,6 +422,12 @@ pub assume_specification<T>[Option::<T>::or](a: Option<T>, b: Option<T>) -> (r: 
     ensures r == (if a is Some { a } else { b });
 pub assume_specification<T>[<Option<T> as core::convert::From<T>>::from](t: T) -> (r: Option<T>)
     ensures r == Some(t);
+pub assume_specification<T, U, F>[Option::<T>::map_or](a: Option<T>, d: U, f: F) -> (r: U)
+    where F: FnOnce(T) -> U + core::marker::Destruct, U: core::marker::Destruct,
+    requires a is Some ==> f.requires((a->0,)),
+    ensures
+        a is Some ==> f.ensures((a->0,), r),
+        a is None ==> r == d;
 pub assume_specification<T, E, U, F>[Result::<T, E>::and_then](a: Result<T, E>, f: F) -> (r: Result<U, E>)
     where F: FnOnce(T) -> Result<U, E> + core::marker::Destruct,
     requires a is Ok ==> f.requires((a->Ok_0,)),
